@@ -63,12 +63,12 @@ NOTES = {
  "C09": "numpy re-implementation of hardening laws / Hencky energy / incremental potential trusted; yield strain 1e-9..3e-2, E over 12 decades, stretches 0.1..10; open: D8 (batched), C09-N1, C09-N3, C09-N4 (root finder / absolute guards at extreme ratios).",
  "C10": "8th-order central differences with two stencil widths and a yield-switch margin; unit-system sweep up to SI pascals; D12 open (second derivative at repeated stretches).",
  "C11": "numpy equilibrium energy and closed-form limits trusted; moduli 1e-6..1e9, tau 1e-4..1e4, dt/tau 1e-6..1e6, stretches 0.1..10; D8 open (batched).",
- "C12": "numpy eigvalsh, Daleckii-Krein, fractions.Fraction, scipy sqrtm/logm trusted; exact-degeneracy classes in dyadic arithmetic for every branch variable; open: D8, D8b, D24 (compiled eigen-solver at ties), D22 (logm Pade table).",
+ "C12": "numpy eigvalsh, Daleckii-Krein, fractions.Fraction, scipy sqrtm/logm trusted; exact-degeneracy classes in dyadic arithmetic for every branch variable; open: D8, D8b, D24 (compiled eigen-solver at ties), D22 (logm Pade table). Known gap: derivative rules are compared at first order only (seeded change C12-7, wrong second-order derivative of exp_symm at repeated eigenvalues, is not caught; DESIGN 8.5).",
  "C13": "harness-written Exodus/JSON files are well-formed by construction; pure-numpy structural validator; operands must come back unchanged; absolute scale/offset sweep. Tiny edge tables (from the single-cell 2x2 mesh up) under random node renumbering.",
  "C14": "boolean-mask oracle; index-map orientation accepted up to one global transpose (DESIGN 8.3); exhaustive over all BC subsets of the 2x2-node mesh; redefinition histories in one process; assembly at 2^-70..2^45.",
  "C15": "CHOLMOD stand-in trusted; solver run with tight tolerances; plane strain and axisymmetric, pressure projection 0/1; energy clause as read in DESIGN section 3. Density / material studies on a shared FunctionSpace (each dynamics object must keep its own mass).",
  "C16": "long-double closed forms cross-checked by brute force; absolute scales 1e-12..1e8; D15 open (average-normal policy with coinciding normals).",
- "C17": "numpy transcription of rtsafe is the reference model for honest budget exhaustion; open: D10 (honest NaN on exhaustion), D10d (step-size criterion in steep regions).",
+ "C17": "numpy transcription of rtsafe is the reference model for honest budget exhaustion; open: D10 (honest NaN on exhaustion), D10d (step-size criterion in steep regions). Power-law brackets that start at the point of infinite slope (both slope signs).",
  "C18": "x87 long-double oracle; every inequality to 16 ulp of the result scale; exact switch/tie/zero clusters via nextafter.",
  "C19": "CHOLMOD stand-in trusted; dense H^-1 dg/dp oracle (jacfwd), certified references; increment ladder 1e-14..1 and data scales 1e-12..1e12; in-situ recorder on all four drivers. Direct warm starts on objects with an evaluation pre-history at the same point under foreign parameters.",
  "C20": "harness reader implements the legacy-VTK grammar for unstructured grids (self-tested on corrupted files in every worker); shadow model of each writer's contents; NaN/inf field values not exercised.",
